@@ -331,6 +331,31 @@ func c07drainedMarks(c *Ctx, sr *schedRoles) {
 			}
 		}
 	}
+	// E2c: the closed edge of every input receive marks that input drained (otherwise the
+	// discipline never observes "all inputs drained" and never terminates normally)
+	for _, fn := range sr.rt.Funcs {
+		n := 0
+		for _, rs := range p.RecvSites(fn) {
+			if !isInputChanType(rs.Chan.Type()) || rs.Ok == nil {
+				continue
+			}
+			n++
+			marked := false
+			for _, cs := range p.CallSites(sr.markDrain) {
+				if cs.Parent() != fn {
+					continue
+				}
+				for _, e := range InstrDomEdges(cs) {
+					iff := e.From.Instrs[len(e.From.Instrs)-1].(*ssa.If)
+					base, neg := condOf(iff.Cond)
+					if base == rs.Ok && ((e.Succ == 0) == neg) {
+						marked = true
+					}
+				}
+			}
+			r.Check(marked, "E2", fmt.Sprintf("%s#closed.%d", p.FnKey(fn), n), rs.Pos(p), "closed edge marks the input drained", "the closed-channel edge of this input receive does not mark the input drained: the all-inputs-drained condition is never reached and the discipline never terminates normally")
+		}
+	}
 	// the marker must write table[key] with key = its parameter
 	mk := sr.markDrain
 	var keyParam *ssa.Parameter
